@@ -145,6 +145,54 @@ def _decoder_def(fname):
         UNIFORM, fname, ast.unparse(comp).replace("\n", " "), lean_name, sig, tr.rng(g.iter), var, tr.n(comp.elt))
 
 
+def _comb_defs():
+    """_index_to_edge_comb: `c = []; r = <r0>; j = -1; for s in range(1, m + 1): cs = j + 1; while r - E > 0: r -= E; cs += 1;
+    c.append(cs); j = cs; return c` -> a fold over s of a fuel-bounded inner loop.  `j` occurs only as `j + 1` and is represented by
+    j1 = j + 1 (so -1 becomes 0)."""
+    fn = extract.function(UNIFORM + "_index_to_edge_comb")
+    if [a.arg for a in fn.args.args] != ["index", "n", "m"]:
+        raise Untranslatable("parameters")
+    body = _strip(fn)
+    if body and isinstance(body[0], ast.If) and not body[0].orelse and all(
+            isinstance(s_, ast.Expr) and isinstance(s_.value, ast.Call) and ast.unparse(s_.value.func) in ("warnings.warn", "warn") for s_ in body[0].body):
+        body = body[1:]
+    src = [ast.unparse(x) for x in body]
+    if not (len(body) == 5 and src[0] == "c = []" and src[2] == "j = -1" and src[4] == "return c" and isinstance(body[1], ast.Assign)
+            and ast.unparse(body[1].targets[0]) == "r" and isinstance(body[3], ast.For)):
+        raise Untranslatable("body is not `c = []; r = ..; j = -1; for ..; return c`: %s" % [x.split(chr(10))[0] for x in src])
+    loop = body[3]
+    if not (isinstance(loop.target, ast.Name) and loop.target.id == "s" and not loop.orelse and len(loop.body) == 4):
+        raise Untranslatable("outer loop shape")
+    b = loop.body
+    if not (ast.unparse(b[0]) == "cs = j + 1" and isinstance(b[1], ast.While) and ast.unparse(b[2]) == "c.append(cs)" and ast.unparse(b[3]) == "j = cs"):
+        raise Untranslatable("outer loop body is not `cs = j + 1; while ..; c.append(cs); j = cs`")
+    w = b[1]
+    t = w.test
+    if not (isinstance(t, ast.Compare) and len(t.ops) == 1 and isinstance(t.ops[0], ast.Gt) and ast.unparse(t.comparators[0]) == "0"
+            and isinstance(t.left, ast.BinOp) and isinstance(t.left.op, ast.Sub) and ast.unparse(t.left.left) == "r" and not w.orelse and len(w.body) == 2):
+        raise Untranslatable("while condition is not `r - E > 0`")
+    E = t.left.right
+    if not (isinstance(w.body[0], ast.AugAssign) and isinstance(w.body[0].op, ast.Sub) and ast.unparse(w.body[0].target) == "r"
+            and ast.dump(w.body[0].value) == ast.dump(E) and ast.unparse(w.body[1]) == "cs += 1"):
+        raise Untranslatable("while body is not `r -= E; cs += 1` with the E of the condition")
+    # comb(N, K, exact=True) -> Nat.choose N K
+    if not (isinstance(E, ast.Call) and ast.unparse(E.func) in ("comb", "math.comb", "special.comb") and len(E.args) == 2
+            and all(k.arg == "exact" and ast.unparse(k.value) == "True" for k in E.keywords)):
+        raise Untranslatable("E is not comb(N, K, exact=True)")
+    tr = Tr(nat={"index", "n", "m", "s", "cs"}, sub_ok=True)
+    e = "(Nat.choose %s %s)" % (tr.n(E.args[0]), tr.n(E.args[1]))
+    return ("/-- GENERATED from %s_index_to_edge_comb: inner loop `while r - E > 0: r -= E; cs += 1` with E = `%s`, at most `fuel` iterations -/\n"
+            "def comb_inner (n m s : Nat) : Nat → Nat → Nat → Nat × Nat\n  | 0, r, cs => (r, cs)\n"
+            "  | fuel + 1, r, cs => if r > %s then comb_inner n m s fuel (r - %s) (cs + 1) else (r, cs)\n"
+            "/-- GENERATED: one iteration of `for s in ...` on the state (c, r, j + 1): `cs = j + 1; <inner loop>; c.append(cs); j = cs` -/\n"
+            "def comb_step (n m : Nat) (st : List Nat × Nat × Nat) (s : Nat) : List Nat × Nat × Nat :=\n"
+            "  let res := comb_inner n m s n st.2.1 st.2.2\n  (st.1 ++ [res.2], res.1, res.2 + 1)\n"
+            "/-- GENERATED: `c = []; %s; j = -1; for s in %s: ...; return c` -/\n"
+            "def decode_comb (index n m : Nat) : List Nat :=\n  ((%s).foldl (comb_step n m) ([], %s, 0)).1\n" % (
+                UNIFORM, ast.unparse(E), e, e, ast.unparse(body[1]), ast.unparse(loop.iter), Tr(nat={"index", "n", "m"}).rng(loop.iter),
+                Tr(nat={"index", "n", "m"}).n(body[1].value)))
+
+
 # ------------------------------------------------------------------------------------------------ C15: sub-face count
 def _subface_count_def():
     fn = extract.function("xgi/algorithms/simpliciality.py::_max_number_of_subfaces")
@@ -228,6 +276,16 @@ JOBS = {
         theorems=[("left-inverse", "part_left_inverse"), ("digits-in-range", "part_digits_in_range"), ("injective", "part_injective")],
         assumes=[NAT_ASSUME, "numpy integer arithmetic in np.prod is treated as mathematical (no overflow)"],
         drops=["the `try: ... except KeyError: raise Exception(...)` wrapper around the return (no KeyError can arise on a list / array)"]),
+    "decode_comb": dict(
+        prop="C16", function=UNIFORM + "_index_to_edge_comb", template="decode_theorems.lean", section="_index_to_edge_comb",
+        gen=_comb_defs,
+        theorems=[("inner-loop", "inner_spec"), ("length-increasing-in-range-rank", "decode_comb_spec"), ("injective", "decode_comb_injective")],
+        assumes=[NAT_ASSUME, "scipy.special.comb(N, k, exact=True) is the binomial coefficient for 0 <= N (Mathlib's Nat.choose); `n - 1 - cs` and `m - s` "
+                 "never underflow on the executions the theorems cover (proved: cs + (m - s) < n at every exit of the inner loop, s <= m)",
+                 "the while loop is modelled with fuel n: it agrees with the Python loop whenever that exits within n iterations, which the "
+                 "theorem establishes for every index < comb(n, m) (for an index out of range the Python loop may not terminate: outside the contract)",
+                 "`j` occurs only as `j + 1` and is represented by that value"],
+        drops=["a leading `if <cond>: warnings.warn(...)` statement"]),
     "max_subfaces": dict(
         prop="C15", function="xgi/algorithms/simpliciality.py::_max_number_of_subfaces", template="simpliciality_theorems.lean", section="_max_number_of_subfaces",
         gen=_subface_count_def,
